@@ -3,7 +3,7 @@ import json, random
 from common import *
 from vis_common import *
 
-FILES = ["Tie/C08_tie.v", "Props/C09.v"]
+FILES = ["Tie/C08_tie.v", "Tie/C09_tie.v", "Props/C09.v"]
 PID = "C09"
 # binary/collapsed x tree/flat x annotations (DoV and activation-conditions-first are C17's/C20's)
 C09_FLAGS = ["%d%d%d00" % (a, b, c) for a in (0, 1) for b in (0, 1) for c in (0, 1)] + ["01011", "00001"]
